@@ -383,6 +383,27 @@ class Engine:
             return self.alloc_seq(st, tuple, [self.lift(x, st) for x in v])
         if isinstance(v, (Closure, BoundMethod, Model, type, types.FunctionType, types.BuiltinFunctionType, types.MethodType)):
             return self._const_obj("obj", v)
+        if type(v) is dict and getattr(self, "libcls", None) is not None and all(not isinstance(k_, SV) for k_ in v):
+            # a dict created by the code under verification (a display such as {}) that flows into the heap: a new
+            # object with exactly these entries; the same Python object always lifts to the same address on a path
+            memo = st.ghost.setdefault("lifted_dicts", {})
+            if id(v) not in memo:
+                from . import lib as _lib
+
+                sv = self.alloc(st, dict)
+                a = V.Val.a(sv.t)
+                _lib.dict_content(st, a)
+                m = z3.K(V.Val, V.VNone)
+                d = z3.K(V.Val, z3.BoolVal(False))
+                for k_, x_ in v.items():
+                    kt = _lib.key_norm(self.lift(k_, st))
+                    m, d = z3.Store(m, kt, self.lift(x_, st)), z3.Store(d, kt, True)
+                st.aux["pdm"] = z3.Store(st.aux["pdm"], a, m)
+                st.aux["pdd"] = z3.Store(st.aux["pdd"], a, d)
+                memo = dict(memo)
+                memo[id(v)] = (sv.t, v)
+                st.ghost["lifted_dicts"] = memo
+            return st.ghost["lifted_dicts"][id(v)][0]
         t = self._const_obj("obj", v)
         # a concrete object of a class the run knows about: its class is a fact, and packs may describe
         # (part of) its content - e.g. that lmap.EMPTY wraps an empty map
